@@ -111,7 +111,10 @@ class InMemoryObjectStore(BaseObjectStore):
             raise ValueError(
                 f'Name "{name}" already in {self._cim_object_type} '
                 'object store')
-        # Add with deepcopy to completely isolate the copy in the repository
+        # Add with deepcopy to completely isolate the copy in the repository.
+        # CIMInstanceName keys are mutable, so they are copied as well.
+        if self._copy_names:
+            name = deepcopy(name)
         self._data[name] = deepcopy(cim_object)
 
     def update(self, name, cim_object):
